@@ -240,6 +240,12 @@ def run(ctx):
                 "qubits under a classical condition (always true or a coin) and unconditionally, vector/auto: histogram vs Born (the reference reads the "
                 "tokens as composites of library gates with the same matrix, Driver/GateParse.lean); `perm`: increments on basis states under a fulfilled "
                 "condition, the only possible register value computed by the harness with integer arithmetic; `wide`: Clifford circuits on 31..130 qubits. "
+                "CLIFFORD COMBINATORS: the Clifford streams (here and in the trace harness) draw Kron/Composite/Loop terms whose sub-gates (CX, CY, CZ, "
+                "Swap, one-qubit Cliffords, nested) sit on their qubits in EVERY operand order (adjacent descending `CX 1 0`, rotated 3-operand "
+                "lists), also as conditional gates, so the stabilizer backend conjugates through them; 40 (150) circuits of superposed qubits + such "
+                "combinators on stabilizer/auto/vector vs Born; `cperm`: 300 (1500) basis-state circuits of Composite/Loop gates (bare or under a "
+                "fulfilled condition) built from X/Y/CX/CY/CZ/Swap on mostly adjacent operands in both orders, mostly on the stabilizer "
+                "representation, the only possible register value computed by the harness with boolean arithmetic. "
                 "Non-trivial = every statistical test on a generated circuit; distinct = distinct (circuit, representation, seed).",
         "samples": [{"req": it["req"][:300], "impl": it["ans"][:200]} for it in items[:3]],
         "statistical_tests": tested, "min_p_value_on_F": minp, "model_multinomial_float_checks": theorem_float_checks,
